@@ -154,6 +154,7 @@ type Instance struct {
 	Excluded       []int             `json:"Excluded"`
 	Timeout        bool              `json:"Timeout"`
 	RealTimeoutMs  int               `json:"RealTimeout"`    // > 0: free-running with the loader's own Timeout option
+	PrimeFrom      int               `json:"PrimeFrom"`      // != 0: the caller's LogOptions value was used for an earlier load, starting from this entry
 	CustomManifest bool              `json:"CustomManifest"` // mh: load a manifest listing the heads in Start order (any writer may have produced it)
 }
 
@@ -204,6 +205,8 @@ func faultKind(s string) fakeipfs.FaultKind {
 		return fakeipfs.FaultMissing
 	case "error":
 		return fakeipfs.FaultError
+	case "ctxerror":
+		return fakeipfs.FaultCtxError
 	case "garbage":
 		return fakeipfs.FaultGarbage
 	case "slow":
@@ -303,6 +306,25 @@ func RunInstance(ctx context.Context, s *Shape, pool *world.Pool, inst *Instance
 			}
 		}()
 		var err error
+		// one LogOptions value per caller: when PrimeFrom is set the caller has already used it for another load
+		// (of an older state of the log, from an unfaulted copy of the store, outside the schedule)
+		lo := &ipfslog.LogOptions{ID: rep.GetID(), IO: s.Run.IO, SortFn: world.SortFn(s.Run.Cfg.Fn)}
+		if inst.PrimeFrom != 0 {
+			fr.Mute(true)
+			pc := s.CidOf(inst.PrimeFrom)
+			clone := s.Run.API.D.Clone()
+			switch inst.Kind {
+			case "entryhash":
+				_, _ = ipfslog.NewFromEntryHash(rctx, clone, identity, pc, lo, &ipfslog.FetchOptions{})
+			case "json":
+				_, _ = ipfslog.NewFromJSON(rctx, clone, identity, &iface.JSONLog{ID: rep.GetID(), Heads: []cid.Cid{pc}}, lo, &entry.FetchOptions{})
+			case "entry":
+				if pe, ok := rep.Get(pc); ok {
+					_, _ = ipfslog.NewFromEntry(rctx, clone, identity, []iface.IPFSLogEntry{pe}, lo, &entry.FetchOptions{})
+				}
+			}
+			fr.Mute(false)
+		}
 		switch inst.Kind {
 		case "fetch":
 			res := entry.FetchAll(rctx, api, startCids, &entry.FetchOptions{Length: length, Concurrency: inst.Conc, ShouldExclude: shouldExclude, IO: s.Run.IO, Timeout: rt, ProgressChan: progress})
@@ -323,11 +345,14 @@ func RunInstance(ctx context.Context, s *Shape, pool *world.Pool, inst *Instance
 				&ipfslog.LogOptions{IO: s.Run.IO, SortFn: world.SortFn(s.Run.Cfg.Fn)},
 				&ipfslog.FetchOptions{Length: length, Concurrency: inst.Conc, ShouldExclude: shouldExclude, Timeout: rt, ProgressChan: progress})
 		case "json":
-			loaded, err = ipfslog.NewFromJSON(rctx, api, identity, &iface.JSONLog{ID: rep.GetID(), Heads: startCids},
-				&ipfslog.LogOptions{IO: s.Run.IO, SortFn: world.SortFn(s.Run.Cfg.Fn)},
+			if inst.PrimeFrom == 0 {
+				lo = &ipfslog.LogOptions{IO: s.Run.IO, SortFn: world.SortFn(s.Run.Cfg.Fn)}
+			}
+			loaded, err = ipfslog.NewFromJSON(rctx, api, identity, &iface.JSONLog{ID: rep.GetID(), Heads: startCids}, lo,
 				&entry.FetchOptions{Length: length, Concurrency: inst.Conc, ProgressChan: progress})
 		case "entry":
-			var src []iface.IPFSLogEntry
+			// (a caller's slice with spare capacity: whatever the loader appends to it lands in the caller's array)
+			src := make([]iface.IPFSLogEntry, 0, 64)
 			for _, c := range startCids {
 				e, ok := rep.Get(c)
 				if !ok {
@@ -336,12 +361,13 @@ func RunInstance(ctx context.Context, s *Shape, pool *world.Pool, inst *Instance
 				}
 				src = append(src, e)
 			}
-			loaded, err = ipfslog.NewFromEntry(rctx, api, identity, src,
-				&ipfslog.LogOptions{IO: s.Run.IO, SortFn: world.SortFn(s.Run.Cfg.Fn)},
+			if inst.PrimeFrom == 0 {
+				lo = &ipfslog.LogOptions{IO: s.Run.IO, SortFn: world.SortFn(s.Run.Cfg.Fn)}
+			}
+			loaded, err = ipfslog.NewFromEntry(rctx, api, identity, src, lo,
 				&entry.FetchOptions{Length: length, Concurrency: inst.Conc, ProgressChan: progress})
 		case "entryhash":
-			loaded, err = ipfslog.NewFromEntryHash(rctx, api, identity, startCids[0],
-				&ipfslog.LogOptions{ID: rep.GetID(), IO: s.Run.IO, SortFn: world.SortFn(s.Run.Cfg.Fn)},
+			loaded, err = ipfslog.NewFromEntryHash(rctx, api, identity, startCids[0], lo,
 				&ipfslog.FetchOptions{Length: length, Concurrency: inst.Conc, ShouldExclude: shouldExclude, ProgressChan: progress})
 		default:
 			fin.HErr, fin.Err = true, "harness: unknown loader kind "+inst.Kind
